@@ -120,6 +120,7 @@ def check(ctx):
     pc.projectors(ctx, N, "NF-API")
     # ---- R-NESTED + spectrum (shared) ----------------------------------------------------------------------
     pc.spectrum(ctx, N)
+    pc.solver_policy(ctx, "R-SPECTRUM")  # which decomposition svd_solver='auto' resolves to (exactness of the spectrum clause)
     # ---- NF-ROUNDTRIP (feature space) -------------------------------------------------------------------------
     roundtrip(ctx)
     # ---- shapes of the public API over the protocols -------------------------------------------------------------
